@@ -301,3 +301,73 @@ class Verdict:
         for path, no_input in self.violations:
             log("VIOLATION property=%s replay=%s%s" % (self.prop, path, " no-failing-input-found" if no_input else ""))
         return 1 if self.violations else 0
+
+
+# --------------------------------------------------------------------------
+# parallel sweeps of harness oracles with crash attribution
+
+def _run_range(hbin, sub, args, lo, hi, out, timeout_s, extra_env=None):
+    """Runs cases [lo,hi) in a child; on a crash, attributes it to the case that
+    had started and resumes after it. Returns list of crash records."""
+    crashes = []
+    cur = lo
+    env = dict(os.environ)
+    if extra_env:
+        env.update(extra_env)
+    while cur < hi:
+        cmd = [hbin, sub] + args + ["--from", str(cur), "--to", str(hi), "--out", out]
+        try:
+            p = subprocess.run(cmd, stdout=subprocess.PIPE, stderr=subprocess.STDOUT, text=True, timeout=timeout_s, env=env)
+            rc, tail = p.returncode, (p.stdout or "")[-3000:]
+        except subprocess.TimeoutExpired as e:
+            rc, tail = -9, "timeout after %ss: %s" % (timeout_s, (e.stdout or "")[-1500:] if isinstance(e.stdout, str) else "")
+        if rc == 0:
+            break
+        # find the last started case
+        last = None
+        try:
+            with open(out) as f:
+                for line in f:
+                    try:
+                        r = json.loads(line)
+                    except ValueError:
+                        continue
+                    if r.get("kind") == "start":
+                        last = r
+                    elif r.get("kind") == "done" and last and r.get("id") == last.get("id"):
+                        last = None
+        except FileNotFoundError:
+            pass
+        if last is None:
+            crashes.append({"id": cur, "query": "?", "exit": rc, "output": tail, "unattributed": True})
+            cur += 1
+        else:
+            crashes.append({"id": last["id"], "query": last.get("query"), "exit": rc, "output": tail})
+            cur = last["id"] + 1
+    return crashes
+
+
+def sweep(hbin, sub, args, n, wd, tag, jobs=16, timeout_s=900, extra_env=None):
+    """Runs `hbin sub args --from a --to b --out f` over n cases in `jobs` children."""
+    jobs = max(1, min(jobs, n))
+    per = (n + jobs - 1) // jobs
+    ranges = [(i * per, min(n, (i + 1) * per)) for i in range(jobs) if i * per < n]
+    outs = [os.path.join(wd, "report_%s_%d.jsonl" % (tag, i)) for i in range(len(ranges))]
+    for o in outs:
+        if os.path.exists(o):
+            os.remove(o)
+    with ThreadPoolExecutor(max_workers=len(ranges)) as ex:
+        crash_lists = list(ex.map(lambda a: _run_range(hbin, sub, args, a[0][0], a[0][1], a[1], timeout_s, extra_env), zip(ranges, outs)))
+    results = []
+    for o in outs:
+        if os.path.exists(o):
+            with open(o) as f:
+                for line in f:
+                    try:
+                        r = json.loads(line)
+                    except ValueError:
+                        continue
+                    if r.get("kind") == "done":
+                        results.append(r)
+    crashes = [c for cl in crash_lists for c in cl]
+    return results, crashes
